@@ -277,6 +277,8 @@ def check(case, ctx):
                 val = sanitize_value(val.replace('\n', ' '), True, ' ')
                 if val is None:
                     continue
+                if val.strip(' \t ').startswith('/'):
+                    continue         # written behind a `key:` that has no blank after the colon this gives `key://...`, which scans as a URL (documented precedence)
             if kind == 'existing':
                 i = idx % len(ents)
                 i = [x[1] for x in ents].index(ents[i][1])       # a repeated key: the first occurrence is the one that is updated
